@@ -74,7 +74,11 @@ class Passwords:
 
     async def _check_password(self, identity: Identity,
                               credentials: ServerCredentials) -> bool:
-        return credentials.verify(identity)
+        try:
+            return credentials.verify(identity)
+        except ValueError:
+            # the name or secret has characters that password_prep prohibits
+            return False
 
 
 @dataclass(frozen=True)
